@@ -741,7 +741,7 @@ pub fn orig_of(c: &CorpusTok) -> Option<(Signed, TokView)> {
 
 pub fn run(tier: Tier) {
     let ctx = Ctx::new("C01", tier);
-    let depth = tier.pick(1, 2);
+    let depth = std::env::var("VERIF_C01_DEPTH").ok().and_then(|v| v.parse().ok()).unwrap_or(tier.pick(2, 2));
     let (corpus, st) = build_corpus(depth, &["b0", "b5"], &["t1"], &[None]);
     let samples = Samples::new(8);
     let evals = AtomicUsize::new(0);
